@@ -31,6 +31,7 @@ pub struct Profile {
     pub p_shared_cte: f64,
     pub p_alias_shadow: f64,
     pub p_cross: f64,
+    pub p_outer_kinds: f64,
     /// Probability of an aggregation over an aggregation grouped by the inner aggregate
     /// (`SELECT t.c, count(*) FROM (SELECT count(*) AS c FROM base GROUP BY key) AS t GROUP BY t.c`).
     pub p_nested_group: f64,
@@ -57,16 +58,17 @@ impl Profile {
             p_shared_cte: 0.0,
             p_alias_shadow: 0.0,
             p_cross: 0.0,
+            p_outer_kinds: 0.0,
             p_nested_group: 0.0,
             p_multi_dp: 0.0,
         };
         match prop {
-            "C03" => Profile { p_cross: 0.04, p_multi_dp: 0.06, p_shared_cte: 0.05, p_nested_group: 0.03, ..base },
-            "C01" => Profile { p_cross: 0.06, p_shared_cte: 0.03, p_nested_group: 0.05, ..base },
+            "C03" => Profile { p_cross: 0.04, p_outer_kinds: 0.05, p_multi_dp: 0.06, p_shared_cte: 0.05, p_nested_group: 0.03, ..base },
+            "C01" => Profile { p_cross: 0.06, p_outer_kinds: 0.06, p_shared_cte: 0.03, p_nested_group: 0.05, ..base },
             "C09" => Profile { p_alias_shadow: 0.4, public_keys_only: true, benign_data: true, p_distinct: 0.12, p_row_privacy: 0.15, p_grouped: 0.65, ..base },
             "C04" => Profile { p_nested_group: 0.08, p_nested: 0.0, need_private_key: true, p_grouped: 1.0, p_outer: 0.0, p_distinct: 0.05, ..base },
             "C16" => Profile { benign_data: true, full_catalogue: true, p_public_table: 1.0, p_synthetic: 0.3, ..base },
-            "C02" => Profile { p_cross: 0.04, p_multi_dp: 0.04, p_nested_group: 0.03, p_shared_cte: 0.08, p_plain: 0.25, p_synthetic: 0.4, p_public_table: 0.5, p_outer: 0.2, ..base },
+            "C02" => Profile { p_cross: 0.04, p_outer_kinds: 0.05, p_multi_dp: 0.04, p_nested_group: 0.03, p_shared_cte: 0.08, p_plain: 0.25, p_synthetic: 0.4, p_public_table: 0.5, p_outer: 0.2, ..base },
             _ => base,
         }
     }
@@ -635,6 +637,14 @@ pub fn generate(seed: u64, run: u64, prop: &str) -> Generated {
             f.kind = "CROSS JOIN".into();
             f.on = None;
             join_tags.push("cross");
+        }
+    }
+    // RIGHT / FULL joins between two protected tables (own stream; profiles whose oracles do not
+    // depend on the harness's own reading of key nullability)
+    if rx_.chance(profile.p_outer_kinds) {
+        if let Some(f) = from.iter_mut().skip(1).find(|f| protected.contains(&f.table) && f.kind != "CROSS JOIN") {
+            f.kind = if rx_.chance(0.5) { "RIGHT JOIN".into() } else { "FULL JOIN".into() };
+            join_tags.push("outer_kind");
         }
     }
     if ref_key {
